@@ -34,6 +34,11 @@ async def observe_jobdirs(loop, res):
         except Exception as e:  # noqa
             problems.append(("noalloc", f"job {name}: {e}"))
             continue
+        want_locs = res["wf"].steps.get(name.rsplit("/", 1)[0] + "/__schedule__")
+        if want_locs is not None:
+            need = want_locs.binding_config.targets[0].locations
+            if len(locs) != need:
+                problems.append(("nlocations", f"job {name} is allocated on {len(locs)} locations, its target asks for {need}"))
         for kind, d in dirs.items():
             if not isinstance(d, str) or not d:
                 problems.append(("empty", f"job {name} {kind} directory is {d!r}"))
@@ -84,10 +89,12 @@ def run_case(params, prefix):
 
 def cases_for(tier):
     specs = [{"prog": "scatterjobs", "n": 1}, {"prog": "scatterjobs", "n": 3}, {"prog": "jobs", "k": 2},
-             {"prog": "twojobs"}, {"prog": "fixeddirs", "n": 2}]
+             {"prog": "twojobs"}, {"prog": "fixeddirs", "n": 2},
+             {"prog": "multiloc", "n": 2, "locs": 2, "nlocs": 3}, {"prog": "multiloc", "n": 1, "locs": 3, "nlocs": 3}]
     if tier == "thorough":
         specs += [{"prog": "scatterjobs", "n": 6}, {"prog": "seq_job_scatterjobs", "n": 2},
-                  {"prog": "loopjob", "pred": "lt3"}, {"prog": "fixeddirs", "n": 3}]
+                  {"prog": "loopjob", "pred": "lt3"}, {"prog": "fixeddirs", "n": 3},
+                  {"prog": "multiloc", "n": 3, "locs": 2, "nlocs": 4}]
     cases = [{"spec": s} for s in specs]
     for c in cases:
         if c["spec"].get("n", 0) >= 6:
